@@ -150,6 +150,7 @@ class VSQS(Ansatz):
 
     def update_var_params(self, var_params):
         """Update the variational parameters in the circuit without rebuilding."""
+        var_params = self.set_var_params(var_params)
         for i in range(self.intervals-1):
             self._update_gate_params_for_qu_op(self.h_init_list, self.n_var_gates * i, var_params[self.stride*i], self.n_h_init)
             self._update_gate_params_for_qu_op(self.h_final_list, self.n_var_gates * i + self.n_h_init * self.trotter_order,
